@@ -24,6 +24,48 @@ def _trees(c, n, model):
         yield gen.node_to_json(node)
 
 
+def _reified_shape_trees(c, n, model):
+    """
+    Trees containing nodes that look like reifications (a dereifiable concept with its two argument roles, sometimes a third
+    relation or only one), attached in every way: referenced by an ordinary edge (nested as an argument), by an inverted
+    edge, re-entrant, or as the top.
+    """
+    from .drive import RAW_MODELS
+    table = RAW_MODELS['amr' if model == 'amr' else 'miniamr']['reifs']
+    fillers = ['b', 'c', 'd']
+    for i in range(n):
+        role, concept, srole, trole = c.rng.choice(table)
+        rv = c.rng.choice(['r', '_', 'h', 'x2'])
+        args = [(srole, c.rng.choice([('b', [('/', 'beta')]), 'a', '7', '"s"', ('b', [])])),
+                (trole, c.rng.choice([('c', [('/', 'gamma')]), '7', 'a', '-', ('c', [('/', 'x'), (':polarity', '-')])]))]
+        if c.rng.random() < 0.3:
+            args.reverse()
+        extra = c.rng.random()
+        if extra < 0.15:
+            args.append((':mod', 'z'))            # another relation: must not be collapsed
+        elif extra < 0.25:
+            args.pop()                             # only one relation
+        if c.rng.random() < 0.3:
+            args = [(r + maybe, t) for (r, t), maybe in zip(args, ['~e.1', '', ''])]
+        rnode = (rv, [('/', concept + c.rng.choice(['', '~e.4']))] + args)
+        shape = c.rng.random()
+        if shape < 0.15:
+            node = rnode                                                   # the reified node is the top
+        elif shape < 0.55:
+            node = ('a', [('/', 'alpha'), (c.rng.choice([':ARG0', ':ARG1', ':op1']), rnode)])      # referenced: nested as an argument
+        elif shape < 0.75:
+            node = ('a', [('/', 'alpha'), (c.rng.choice([':ARG0-of', ':ARG1-of']), rnode)])        # attached by an inverted edge
+        elif shape < 0.9:
+            node = ('a', [('/', 'alpha'), (':ARG0', rnode), (':ARG1', rv)])                         # referenced twice
+        else:
+            node = ('a', [('/', 'alpha'), (':ARG2', ('e', [('/', 'eps'), (':ARG0', rnode)])), (':ARG1-of', ('f', [('/', 'phi')]))])
+        # variables must be unique: drop the tree if a filler collides
+        vs = _vars_of(gen.node_to_json(node))
+        if len(vs) != len(set(vs)):
+            continue
+        yield gen.node_to_json(node)
+
+
 def _start(c, jn):
     r = c.rng.random()
     if r < 0.45:
@@ -59,6 +101,11 @@ def check_C12(c):
             if _q(c, False, True) and c.rng.random() < 0.2:
                 ops = c.rng.sample(OPS, 4)
             jobs.append(('tr_program', dict(node=jn, ops=ops, model=model, start=st)))
+    for model in ('amr', 'miniamr'):
+        for jn in _reified_shape_trees(c, _q(c, 250, 6000), model):
+            ops = c.rng.choice([['dereify_edges'], ['dereify_edges', 'reify_edges'], ['dereify_edges', 'reify_attributes'],
+                                ['indicate_branches', 'dereify_edges'], ['reify_attributes', 'dereify_edges']])
+            jobs.append(('tr_program', dict(node=jn, ops=ops, model=model, start=None if c.rng.random() < 0.7 else {'strip': True})))
     traces = pmake(jobs)
     c.judge('J_Transform', traces, 'programs', nontrivial=lambda t: any(s['ok'] and s['g']['tr'] != t['g0']['tr'] for s in t['steps']))
     c.rule = ('random well-formed trees over the AMR / MiniAMR role and concept inventories (reifiable roles on edges, attributes, '
@@ -81,6 +128,11 @@ def check_C11(c):
     for mdl in CUSTOM:
         for jn in _trees(c, _q(c, 200, 4000), 'miniamr'):
             jobs.append(('tr_inverse', dict(node=jn, model='custom', mdl=mdl)))
+    # nodes that look like reifications, attached in every way (referenced, inverted, re-entrant, top)
+    for model in ('amr', 'miniamr'):
+        for jn in _reified_shape_trees(c, _q(c, 700, 15000), model):
+            st = None if c.rng.random() < 0.7 else {'strip': True}
+            jobs.append(('tr_dereify', dict(node=jn, model=model, start=st)))
     traces = pmake(jobs)
     c.judge('J_Transform', traces, 'inverse', nontrivial=lambda t: t['kind'] == 'inverse' and t['g1']['tr'] != t['g']['tr'] or
             t['kind'] == 'dereify' and t['out']['tr'] != t['g']['tr'])
